@@ -85,6 +85,9 @@ StrategyOK(e) ==
             /\ e.e2[Len(e.e2) - 1] <= 2 * e.nvals                     \* by at most one bin width
             /\ e.covered = e.n                                        \* every observation falls into a bin
             /\ e.hist_total = e.n                                     \* and a histogram over the grid counts all of them
+            \* ... each in the bin that contains it (edges and data in doubled-rank space; left-closed, right-open)
+            /\ (Has(e, "hcounts") /\ Len(e.hcounts) = e.bins_len) =>
+                   \A i \in 1..e.bins_len : e.hcounts[i] = Cardinality({k \in DOMAIN e.dr : e.e2[i] <= e.dr[k] /\ e.dr[k] < e.e2[i + 1]})
             /\ (Has(e, "raw") => EqualWidth(e.raw))                   \* integer data: exactly equal widths
             /\ ((Has(e, "wdev") /\ e.mode \in {"quarter", "tenth", "third"}) => e.wdev <= 64)     \* float data: equal at the quantum (only where the width is many ulps of the data: not for the offset / big modes)
             /\ (~e.isfloat => e.n_bins = e.bins_len))                 \* advertised number of bins = bins built
